@@ -29,6 +29,7 @@ func (c *Ctx) inFlightContext(f *Func) string {
 }
 
 func rulesC01(c *Ctx) {
+	c.Import("R-C01-16", "a write that failed only because its own context ended (cancelled or past its deadline) does not break the connection for everybody else: the calls of other callers keep completing with their own responses", "C04", "R-C04-6", func(k string) bool { return strings.HasPrefix(k, "write:") })
 	ruleErrorDiscipline(c, "R-C01-15", "a request that could not be sent completes with that error: no error of a step of the transports' Write (building the request, headers, the HTTP exchange, encoding) is dropped — a dropped one leaves the call waiting for a response to a request that never left", map[string][]string{
 		pM: {"(*streamableClientConn).Write", "(*streamableClientConn).setMCPHeaders", "(*sseClientConn).Write", "(*ioConn).Write", "(*rwc).Write", "(*streamableServerConn).Write", "(*sseServerConn).Write", "(*loggingConn).Write"},
 		pJ: {"(*Connection).write", "(*Connection).Call", "(*Connection).Notify"},
